@@ -26,10 +26,10 @@ var targets = map[string][]string{
 	// interleavable like the functions that call them
 	"bls_thresholdsign.go": {"recv:blsThresholdSignature", "*"},
 	"hash/kmac.go":         {"ComputeHash", "SumHash", "Reset", "Size", "*"},
-	"bls.go":               {"Sign", "Verify", "PublicKey", "computePublicKey", "Encode", "checkBLSHasher", "*"},
+	"bls.go":               {"Sign", "Verify", "PublicKey", "Encode", "*"},
 	"bls_multisig.go":      {"BLSGeneratePOP", "BLSVerifyPOP", "AggregateBLSPublicKeys", "VerifyBLSSignatureOneMessage", "VerifyBLSSignatureManyMessages", "BatchVerifyBLSSignaturesOneMessage", "*"},
 	"spock.go":             {"SPOCKProve", "SPOCKVerifyAgainstData", "SPOCKVerify", "*"},
-	"ecdsa.go":             {"Sign", "Verify", "signHash", "verifyHash", "PublicKey", "*"},
+	"ecdsa.go":             {"Sign", "Verify", "PublicKey", "*"},
 }
 
 func die(f string, a ...any) {
